@@ -821,3 +821,106 @@ func LargeBackfillRun(b *Bucket, r *rng.R) (int, string, map[string]any) {
 	}
 	return dumps, "", map[string]any{"documents": len(want), "groups_sharing_a_cas": len(groupCas), "dumps": dumps}
 }
+
+// QueuedRewriteRun: a checkpointed feed (optionally KeysOnly) is parked in its callback on the first event while
+// several keys are written behind it, some of them twice with other keys in between. A PRNG-chosen number of
+// callbacks is released, then the feed is stopped with the rest still queued, and resumed as a dump. Whatever
+// position in the queue a rewritten key's event holds, the runs together must deliver every key's final version
+// and the checkpoint must not pass anything that was not delivered.
+func QueuedRewriteRun(m *MultiBucket, keysOnly bool, r *rng.R) (string, map[string]any) {
+	col := m.CollsBy[0][0]
+	ctx := context.Background()
+	const prefix, id = "cpq", "feedQ"
+	if err := col.SetRaw("first", 0, nil, []byte("1")); err != nil {
+		return "setup|" + err.Error(), nil
+	}
+	f := NewFeedLog(id, 0, 0)
+	park := make(chan struct{}, 1024)
+	f.Park = park
+	if err := col.StartDCPFeed(ctx, sgbucket.FeedArguments{ID: id, Backfill: sgbucket.FeedResume, CheckpointPrefix: prefix, KeysOnly: keysOnly, Terminator: f.Term, DoneChan: f.Done}, f.Callback, nil); err != nil {
+		return "setup|StartDCPFeed(resume) failed: " + err.Error(), nil
+	}
+	// the callback is parked (on the begin-backfill marker or on "first"); now the writes queue up behind it
+	nkeys := 2 + r.Intn(4)
+	var order []string
+	for i := 0; i < nkeys; i++ {
+		order = append(order, fmt.Sprintf("q%d", i))
+	}
+	// some keys are written again after later ones
+	again := 1 + r.Intn(nkeys)
+	for i := 0; i < again; i++ {
+		order = append(order, fmt.Sprintf("q%d", r.Intn(nkeys)))
+	}
+	for i, k := range order {
+		if err := m.CollsBy[i%len(m.CollsBy)][0].SetRaw(k, 0, nil, []byte(fmt.Sprintf("v%d", i))); err != nil {
+			return "setup|" + err.Error(), nil
+		}
+	}
+	release := 2 + r.Intn(3+nkeys) // markers and "first" take up to three callbacks
+	for i := 0; i < release; i++ {
+		park <- struct{}{}
+	}
+	deadline := time.Now().Add(2 * time.Second)
+	for f.Len() < release && time.Now().Before(deadline) {
+		time.Sleep(200 * time.Microsecond)
+	}
+	stopFeed(f)
+	go func() {
+		for {
+			select {
+			case park <- struct{}{}:
+			case <-f.Done:
+				return
+			}
+		}
+	}()
+	select {
+	case <-f.Done:
+	case <-time.After(20 * time.Second):
+		return "hang|the feed did not stop within 20 s of its terminator closing", nil
+	}
+	newest := map[string]uint64{}
+	var maxDelivered uint64
+	collect := func(l *FeedLog) {
+		for _, e := range l.Snapshot() {
+			if e.Op == uint8(sgbucket.FeedOpBeginBackfill) || e.Op == uint8(sgbucket.FeedOpEndBackfill) {
+				continue
+			}
+			if e.Cas > newest[e.Key] {
+				newest[e.Key] = e.Cas
+			}
+			if e.Cas > maxDelivered {
+				maxDelivered = e.Cas
+			}
+		}
+	}
+	collect(f)
+	info := map[string]any{"keys_only": keysOnly, "writes_in_order": order, "callbacks_released": release, "delivered_by_first_run": len(f.Snapshot())}
+	if raw, _, err := col.GetRaw(prefix + ":" + id); err == nil {
+		var cp cpDoc
+		if json.Unmarshal(raw, &cp) == nil && cp.LastSeq > maxDelivered {
+			return fmt.Sprintf("checkpoint|the checkpoint says last_seq=%d but the highest CAS the feed delivered is %d", cp.LastSeq, maxDelivered), info
+		}
+	}
+	d := NewFeedLog(id, 0, 0)
+	if err := col.StartDCPFeed(ctx, sgbucket.FeedArguments{ID: id, Backfill: sgbucket.FeedResume, CheckpointPrefix: prefix, KeysOnly: keysOnly, Dump: true, DoneChan: d.Done}, d.Callback, nil); err != nil {
+		return "setup|StartDCPFeed(resume, dump) failed: " + err.Error(), info
+	}
+	select {
+	case <-d.Done:
+	case <-time.After(30 * time.Second):
+		return "hang|the resumed dump run did not finish within 30 s", info
+	}
+	collect(d)
+	for i := 0; i < nkeys; i++ {
+		k := fmt.Sprintf("q%d", i)
+		_, final, err := col.GetRaw(k)
+		if err != nil {
+			continue
+		}
+		if newest[k] != final {
+			return fmt.Sprintf("skipped|key %s ended with CAS %d, but the newest version the checkpointed %sfeed's runs delivered has CAS %d (writes queued behind a parked callback: %v; the first run was stopped after %d callbacks)", k, final, ifStr(keysOnly, "KeysOnly ", ""), newest[k], order, release), info
+		}
+	}
+	return "", info
+}
